@@ -454,6 +454,7 @@ func lexInsideAction(l *lexer) stateFn {
 			l.emit(itemAnd)
 		} else {
 			l.backup()
+			return l.errorf("unexpected character %#U (expected '&&')", r)
 		}
 	case r == '<':
 		if l.next() == '=' {
